@@ -416,7 +416,22 @@ def make_cdf_case(r, np, diag_only=False):
         if symmetric:
             X = (X + X.T) / 2
         X[np.arange(len(nonrf)), np.arange(len(nonrf))] = 0.0
+        shape_ = ["dense", "dense", "upper", "lower", "rows-zeroed"][int(r.integers(0, 5))]
+        if shape_ != "dense" and not symmetric and len(nonrf) >= 2:
+            # one-way coupling: DOF that drive other equations through damping without
+            # being driven themselves (zero row, non-zero column in the off-diagonal part)
+            if shape_ == "upper":
+                X = np.triu(X, 1)
+            elif shape_ == "lower":
+                X = np.tril(X, -1)
+            else:
+                nz_ = int(r.integers(1, len(nonrf)))          # some rows, never all
+                X[r.choice(len(nonrf), nz_, replace=False), :] = 0.0
+        else:
+            shape_ = "dense"
         C[np.ix_(nonrf, nonrf)] += X
+    else:
+        shape_ = "diag"
     nt = int(np.exp(r.uniform(np.log(2), np.log(150))))
     fs = np.where(kd > 0, kd, mass * (2 * np.pi * f0) ** 2)
     F = fs[:, None] * r.standard_normal((n, nt))
@@ -433,7 +448,8 @@ def make_cdf_case(r, np, diag_only=False):
         rb_arg = []
     tags = {"part": "cdf", "n": n, "order": order, "mform": mform, "rb": rbmode,
             "rf": rfmode, "ic": icmode, "symmetric": symmetric, "nt": nt,
-            "gmin": round(float(gmin_w * h), 4), "diag_only": diag_only}
+            "gmin": round(float(gmin_w * h), 4), "diag_only": diag_only,
+            "coupling_shape": shape_}
     return dict(m=m_in, b=b_in, k=k_in, h=h, rb=rb_arg, rf=(rf if len(rf) else None),
                 order=order, mass=mass, kd=kd, C=C, F=F, d0=d0, v0=v0, el=el, rbidx=rb,
                 static_ic=(icmode == "static"), n=n, nt=nt, tags=tags)
